@@ -11,7 +11,7 @@ theorem uLoadSession_post (cfg : Cfg) (lr : LoadRes) (s : St) (h : mid cfg s = t
      | (s', some o) =>
         o == .panic .documented .canskip && !cfg.skipOnNil && (s.tRef.isNone != s.pRef.isNone)
         && sameFrame s s' && sameObjs s s' && s'.state == .noSession && s.state == .noSession) = true := by
-  obtain ⟨hasCache, state, locked, tracker, calling, status, tRef, pRef, specT, userT, specP, userP, lT, lP, hsS, hsE, hT, hP, raw, ts, shares, filled, held, done⟩ := s
+  obtain ⟨hasCache, state, locked, tracker, calling, status, tRef, pRef, specT, userT, specP, userP, lT, lP, hsS, hsE, hT, hP, raw, ts, shares, filled, held, done, bfresh⟩ := s
   obtain ⟨golang, custom, cT, cP, skip, disabled⟩ := cfg
   rcases tRef with _ | _ | _ <;> rcases pRef with _ | _ | _ <;>
   cases disabled <;> cases hasCache <;> cases state <;> cases lr <;> cases skip <;>
